@@ -37,6 +37,19 @@
 (* same comparisons and hash; every later assignment works as before (the  *)
 (* state is unchanged, so this holds by construction of the closed space). *)
 (*                                                                         *)
+(* DERIVED objects (Derive): a second object is obtained FROM a live one   *)
+(* -- Version(o), NativeVersion(o), copy.copy(o), copy.deepcopy(o),        *)
+(* pickle, ChangeBlock(version=o).version ... -- and BOTH stay in use.     *)
+(* kin says how the two objects are related: "2from1" (object 2 was        *)
+(* derived from object 1), "1from2" (object 1 was derived from object 2)   *)
+(* or "none" (unrelated, or an accepted assignment happened since).  The   *)
+(* derived object holds the same string and the same key; from then on     *)
+(* the two are INDEPENDENT: an assignment to object 1 -- the source in the *)
+(* first case, the copy in the second -- leaves string and key of object 2 *)
+(* untouched (action property Independent), so object 2 still compares    *)
+(* and hashes as its own string says, and object 1 as its new string says. *)
+(* A refused assignment keeps kin (nothing happened).                      *)
+(*                                                                         *)
 (* Negative controls:                                                      *)
 (*   StaleKey  = TRUE : the key survives the assignment (memoised          *)
 (*               comparison key / hash / parsed tuple not invalidated)     *)
@@ -45,23 +58,35 @@
 (*               split again (stale components after a boundary move)      *)
 (*   PartialOnReject = TRUE : a rejected assignment leaves the assigned    *)
 (*               component(s) in the key before raising (partial update)   *)
+(*   SharedOnCopy = TRUE : a derived object shares the parsed components   *)
+(*               with its source (the reference to one mutable structure   *)
+(*               is copied): a COMPONENT assignment to object 1 is written *)
+(*               into the structure object 2 reads as well; object 2 keeps *)
+(*               printing its string but compares / hashes by the assigned *)
+(*               component                                                 *)
 (* each makes TLC report Agree, and (separately) HashConsistent, violated. *)
 (*                                                                         *)
 (* If EmitStride > 0 the selected transitions are printed as MUT lines     *)
-(*  [v1, v2, how, arg, v1', ref, rev, ceq, ref', rev', ceq']  (expected    *)
-(* sign both ways and canonical-key equality before and after); c03.py     *)
+(*  [v1, v2, how, arg, v1', ref, rev, ceq, ref', rev', ceq', kin]  (expected *)
+(* sign both ways and canonical-key equality before and after; kin as      *)
+(* above: with kin # "none" v1 = v2 and the harness obtains one object     *)
+(* from the other through a rotating public way); c03.py                   *)
 (* replays them: compare, mutate the real object, compare again.           *)
 (* Only object 1 is mutated (the comparison is observed both ways).        *)
+(* Accepted assignments of related objects (kin # "none") are ALL printed  *)
+(* (they are few: v1 = v2), refused ones every second; those of unrelated  *)
+(* objects are sampled, and only where object 2 holds a start version.     *)
 (***************************************************************************)
 EXTENDS DpkgVersionMC
 
-CONSTANTS StaleKey, NoResplit, PartialOnReject,
+CONSTANTS StaleKey, NoResplit, PartialOnReject, SharedOnCopy,
           Boundary,       \* TRUE: also the boundary-moving assignment values
           MaxFull         \* longest string an object may reach (a revision "x-0" assigned again and
                           \* again would push one more "-x" into the upstream part each time)
 
-VARIABLES ck1, ck2
-ovars == <<v1, v2, v3, out, ck1, ck2>>
+VARIABLES ck1, ck2,
+          kin             \* "none" | "2from1" | "1from2": see above
+ovars == <<v1, v2, v3, out, ck1, ck2, kin>>
 
 ASSUME ~Seps      \* separators inside components come from the assignments below, not from Vers
 
@@ -88,26 +113,35 @@ Observe(f1, c1, f2, c2) ==
                   !.keq  = (c1.k = c2.k)]
 
 OInit == /\ v1 \in Vers /\ v2 \in Vers /\ v3 = None
-         /\ ck1 = InfoAll[v1] /\ ck2 = InfoAll[v2]
+         /\ ck1 = InfoAll[v1] /\ ck2 = InfoAll[v2] /\ kin = "none"
          /\ out = Observe(v1, ck1, v2, ck2)
 
 \* full-string assignments are sampled with EmitStride, the (rarer) component assignments 4 x denser
-SelectedMut(s, n) == EmitStride > 0 /\ (Chk(v1, 1) * 31 + Chk(v2, 7) + Chk(s, 3) * 17 + Len(v1)) % n = EmitOffset % n
+\* related objects (kin # "none"): stride kn -- every accepted assignment, every second refused one
+SelectedMut(s, n, kn) ==
+    LET sum == Chk(v1, 1) * 31 + Chk(v2, 7) + Chk(s, 3) * 17 + Len(v1) IN
+    /\ EmitStride > 0
+    /\ IF kin # "none" THEN sum % kn = EmitOffset % kn
+       ELSE v2 \in Vers /\ sum % n = EmitOffset % n
 DenseStride == (EmitStride + 3) \div 4
 
 \* object 1 is assigned; s is the string it then prints, newkey what a correct implementation holds
-Assign(how, arg, s, lazykey) ==
+\* sharedkey: what object 2 would hold if the component were written into a structure it shares
+Assign(how, arg, s, lazykey, sharedkey) ==
     /\ s \in DomStrs                       \* in the domain D2 and at most MaxFull characters
     /\ v1' = s
     /\ ck1' = IF StaleKey THEN ck1 ELSE IF NoResplit THEN lazykey ELSE InfoAll[s]
-    /\ out' = Observe(s, ck1', v2, ck2)
-    /\ UNCHANGED <<v2, v3, ck2>>
-    /\ (SelectedMut(s, IF how = "full" THEN EmitStride ELSE DenseStride) =>
+    /\ ck2' = IF SharedOnCopy /\ kin # "none" THEN sharedkey ELSE ck2
+    /\ kin' = "none"
+    /\ out' = Observe(s, ck1', v2, ck2')
+    /\ UNCHANGED <<v2, v3>>
+    /\ (SelectedMut(s, IF how = "full" THEN EmitStride ELSE DenseStride, 1) =>
           PrintT(<<"MUT", ToJson(<<v1, v2, how, arg, s, out.ref, out.rev, InfoAll[v1].c = InfoAll[v2].c,
-                                   out'.ref, out'.rev, InfoAll[s].c = InfoAll[v2].c>>)>>))
+                                   out'.ref, out'.rev, InfoAll[s].c = InfoAll[v2].c, kin>>)>>))
 
 \* the components the object holds (= the decomposition of v1 when the key is fresh)
 P1 == ck1.p
+P2 == ck2.p
 One   == {<<x>> : x \in UpChars}
 \* boundary-moving values: "x-y" and "d:y" as upstream, "x-0" as revision
 UpsB  == IF Boundary THEN {x \o <<Hyphen>> \o y : x, y \in One} \cup
@@ -115,13 +149,22 @@ UpsB  == IF Boundary THEN {x \o <<Hyphen>> \o y : x, y \in One} \cup
          ELSE {}
 RevsB == IF Boundary THEN {x \o <<Hyphen, Zero>> : x \in One} ELSE {}
 
-AssignFull     == \E s \in Vers : Assign("full", s, s, InfoAll[s])
+AssignFull     == \E s \in Vers : Assign("full", s, s, InfoAll[s], ck2)
 AssignEpoch    == \E e \in Epochs :
-                     Assign("epoch", e, Join(e, P1.u, P1.r), InfoFromParts(e, P1.u, P1.r))
+                     Assign("epoch", e, Join(e, P1.u, P1.r), InfoFromParts(e, P1.u, P1.r), InfoFromParts(e, P2.u, P2.r))
 AssignUpstream == \E u \in Ups(<<>>, <<>>) \cup UpsB :
-                     Assign("upstream", u, Join(P1.e, u, P1.r), InfoFromParts(P1.e, u, P1.r))
+                     Assign("upstream", u, Join(P1.e, u, P1.r), InfoFromParts(P1.e, u, P1.r), InfoFromParts(P2.e, u, P2.r))
 AssignRevision == \E rv \in Revs \cup RevsB :
-                     Assign("revision", rv, Join(P1.e, P1.u, rv), InfoFromParts(P1.e, P1.u, rv))
+                     Assign("revision", rv, Join(P1.e, P1.u, rv), InfoFromParts(P1.e, P1.u, rv), InfoFromParts(P2.e, P2.u, rv))
+
+\* ---- derived objects: one object is obtained from the other (copy construction, copy.copy,
+\* deepcopy, pickle ...); it holds the same string and the same key
+Derive21 == /\ v2' = v1 /\ ck2' = ck1 /\ kin' = "2from1"
+            /\ out' = Observe(v1, ck1, v1, ck1)
+            /\ UNCHANGED <<v1, v3, ck1>>
+Derive12 == /\ v1' = v2 /\ ck1' = ck2 /\ kin' = "1from2"
+            /\ out' = Observe(v2, ck2, v2, ck2)
+            /\ UNCHANGED <<v2, v3, ck2>>
 
 \* ---- rejected assignments: the object is unchanged
 Junk == <<32>>                                   \* a foreign character: the str() of a wrong-typed value
@@ -130,9 +173,9 @@ Reject(how, arg, s, partialkey) ==
     /\ v1' = v1
     /\ ck1' = IF PartialOnReject THEN partialkey ELSE ck1
     /\ out' = Observe(v1, ck1', v2, ck2)
-    /\ UNCHANGED <<v2, v3, ck2>>
-    /\ (SelectedMut(s, DenseStride) =>
-          PrintT(<<"REJ", ToJson(<<v1, v2, how, arg, out.ref, out.rev, InfoAll[v1].c = InfoAll[v2].c>>)>>))
+    /\ UNCHANGED <<v2, v3, ck2, kin>>
+    /\ (SelectedMut(s, DenseStride, 2) =>
+          PrintT(<<"REJ", ToJson(<<v1, v2, how, arg, out.ref, out.rev, InfoAll[v1].c = InfoAll[v2].c, kin>>)>>))
 
 \* values that make the string unacceptable: junk, lone separators, ':' without a numeric epoch
 BadVals   == {Junk, <<>>, <<Colon>>, <<Hyphen>>, <<Colon, Zero>>, <<Zero, Colon>>, <<Zero, Hyphen, Zero, Colon, Zero>>}
@@ -146,9 +189,13 @@ RejectRevision == \E rv \in BadVals \ {<<>>} :
                      Reject("revision", rv, Join(P1.e, P1.u, rv), InfoFromParts(P1.e, P1.u, rv))
 
 ONext == \/ AssignFull \/ AssignEpoch \/ AssignUpstream \/ AssignRevision
+         \/ Derive21 \/ Derive12
          \/ RejectFull \/ RejectEpoch \/ RejectUpstream \/ RejectRevision
 OSpec == OInit /\ [][ONext]_ovars
 
 KeyFresh == ck1 = InfoAll[v1] /\ ck2 = InfoAll[v2]
+\* whatever happens to object 1, an object 2 that keeps its string keeps its key
+Independent == [][(v2' = v2) => (ck2' = ck2)]_ovars
+Related     == kin # "none" => (v1 = v2 /\ ck1 = ck2)
 \* Agree, Antisym, HashConsistent, HashImpl: as defined in DpkgVersionMC, over out
 =============================================================================
